@@ -12,6 +12,13 @@ pub struct SliceConstructor {
 }
 
 impl SliceConstructor {
+    /// Bytes accounted for a sliced message while it is being reassembled: the smallest size a message
+    /// split in `num_slices` slices can have. The sender accounts the exact message size, so reserving
+    /// more than this could exhaust the receive budget with traffic the sender was allowed to send.
+    pub fn reserved_bytes(num_slices: usize) -> usize {
+        num_slices.saturating_sub(1) * SLICE_SIZE + 1
+    }
+
     pub fn new(message_id: u64, num_slices: usize) -> Self {
         SliceConstructor {
             message_id,
